@@ -115,7 +115,17 @@ func cmdC12Lru(args []string) error {
 				rs.EOF = err != nil
 			} else if st.Op == "read" {
 				buf := make([]byte, st.A)
-				n, err := lf.Read(buf)
+				var n int
+				var err error
+				func() {
+					// (a panic inside the cache is behaviour of the code under test on this walk, not a reason to lose the shard)
+					defer func() {
+						if r := recover(); r != nil {
+							err = fmt.Errorf("panic: %v", r)
+						}
+					}()
+					n, err = lf.Read(buf)
+				}()
 				rs.Bytes = ints(buf[:n])
 				rs.EOF = err == io.EOF
 				if err != nil && err != io.EOF {
@@ -130,6 +140,9 @@ func cmdC12Lru(args []string) error {
 			s := lf.Stats()
 			rs.Hits, rs.Misses = s.Hits, s.Misses
 			tr.Steps = append(tr.Steps, rs)
+			if strings.HasPrefix(rs.Op, "read-error:") {
+				break // the object is in no defined state any more
+			}
 		}
 		w.emit(tr)
 	}
